@@ -81,7 +81,7 @@ def run(tier, seed):
     vd = D.Verdict("C01", tier, seed)
     ctx = C.Ctx()
     assumptions = list(D.STANDING_TRUST) + [
-        "termination of the walker's recursion is not proved (#[verifier::exec_allows_no_decreases_clause])",
+        "termination of the walker IS proved (decreases all_nodes(node).len(), one generated size lemma per loop helper); stack depth is not modelled",
         "paired `assume(false)` at the head of arms that are checked in a sibling query are discharge bookkeeping: every arm is asserted in exactly one query",
     ]
     try:
